@@ -505,7 +505,13 @@ def cfg_unit(prop, side, fn, contract, body, replay=None):
              "%s/%s" % (fn, contract), stubs=LIBC, defines=["VERIF_TU_" + side], expect=[contract + "\\.postcondition\\.2"],
              timeout=120, replay=replay)
 R_CFG = {"driver": "replay/r_cfg.c"}
-P["C10"] = {"property": "C10", "level": "proof", "units": [gen_top(),
+ENCODE_C = "libjwt/jwt-encode.c"
+ENC_UNIT = U("C10.jwt_encode", "jwt_encode -> write_js (libjwt/jwt-encode.c)", ENCODE_C, "contracts/jwt_encode_c.h",
+    "jwt_t *j; char *o; char **po = nondet_bool() ? NULL : &o; jwt_encode(j, po);", "jwt_encode/contract_C10_jwt_encode",
+    stubs=["stubs/libc.c", "stubs/ghost.c", "stubs/alloc.c", "stubs/jansson.c", "stubs/b64_shape.c", "stubs/encode_env.c"],
+    defines=["VERIF_TU_JWT_ENCODE", "VERIF_NO_STRCPY", "VERIF_NO_STRLEN", "VJ_MAX_STR=0x1000000"], flags=["--conversion-check"],
+    expect=["contract_C10_jwt_encode\\.postcondition\\.3", "strcat\\.assertion", "verif_sprintf3\\.assertion", "jwt_sign\\.assertion"], timeout=900)
+P["C10"] = {"property": "C10", "level": "proof", "units": [gen_top(), ENC_UNIT,
     cfg_unit("C10", "BUILDER", "jwt_builder_time_offset", "contract_C10_jwt_builder_time_offset",
              "jwt_builder_t *b; jwt_claims_t c; time_t s; jwt_builder_time_offset(b, c, s);", dict(R_CFG, args=["fn=offset"])),
     cfg_unit("C10", "BUILDER", "jwt_builder_enable_iat", "contract_C10_jwt_builder_enable_iat",
@@ -519,6 +525,24 @@ P["C03"]["units"].append(gen_top())
 P["C14"]["units"].append(gen_top())
 for _p in ("C01", "C02", "C03", "C04", "C06", "C09", "C14"):
     P[_p]["units"].append(top(_p))
+
+# ---------------------------------------------------------------------------
+# C20: the command-line tools
+# ---------------------------------------------------------------------------
+TOOLS_STUBS = ["stubs/tools_env.c"]
+_getopt_uw = "getopt_long.0:17,getopt_long.1:33"
+P["C20"] = {"property": "C20", "level": "proof", "units": [
+    U("C20.jwt_verify.main", "main (tools/jwt-verify.c) with process_one", "tools/jwt-verify.c", "contracts/tools_c.h",
+      "int argc; char **argv; tool_main(argc, argv);", "tool_main/contract_C20_jwt_verify_main",
+      stubs=TOOLS_STUBS, defines=["main=tool_main"], flags=[], unwindset=_getopt_uw,
+      loops={"tool_main": [
+        {"loop_id": 0, "vars": ["oc", "alg", "quiet", "verbose", "key_file"],
+         "assigns": "oc, alg, quiet, verbose, key_file, pipe_cmd, optind, optarg, g_getopt_calls",
+         "invariants": ["g_tok_calls == 0 && g_tok_bad == 0"], "decreases": "1000 - g_getopt_calls",
+         "globals": {"pipe_cmd": "pipe_cmd", "optind": "optind", "optarg": "optarg", "g_getopt_calls": "g_getopt_calls", "g_tok_calls": "g_tok_calls", "g_tok_bad": "g_tok_bad"}},
+      ]},
+      expect=["exit\\.assertion\\.1", "exit\\.assertion\\.2", "getopt_long\\.assertion\\.2", "getopt_long\\.assertion\\.3", "tool_main\\.loop_invariant_step"], timeout=600),
+]}
 
 for _f in ("openssl_process_rsa", "openssl_process_ec", "openssl_process_eddsa"):
     P["C07"]["units"].append(U("C07.%s.shape" % _f, "%s (libjwt/openssl/jwk-parse.c), as called through jwt_ops" % _f, JWKP, "contracts/jwks_c.h",
